@@ -254,7 +254,15 @@ SkipExpr(s, i, depth) ==
   ELSE IF b = 44 /\ depth = 0 THEN i
   ELSE SkipExpr(s, i + 1, depth)
 
-FnOfText(t) ==   \* the function a function text denotes when evaluated at top level (nothing captured)
+(* a function text as the lexer reads it when QuoteEscapes is on: \a \b \f \v in its string literals are letters *)
+RECURSIVE UnreadEscapes(_, _, _)
+UnreadEscapes(t, i, acc) ==
+  LET j == StrIndexAny(t, i, StrOfByte(92)) IN
+  IF j > StrLen(t) THEN StrCat(acc, Sub(t, i, StrLen(t)))
+  ELSE IF At(t, j + 1) \in {97, 98, 102, 118} THEN UnreadEscapes(t, j + 2, Cat3(acc, Sub(t, i, j - 1), StrOfByte(At(t, j + 1))))
+  ELSE UnreadEscapes(t, j + 2, StrCat(acc, Sub(t, i, j + 1)))
+FnOfText(t0) ==  \* the function a function text denotes when evaluated at top level (nothing captured)
+  LET t == IF HasDev("QuoteEscapes") THEN UnreadEscapes(t0, 1, "") ELSE t0 IN
   IF StartsWith(t, 1, "func ") /\ IsLetterB(At(t, 6))
   THEN LET k == SkipIdent(t, 6) IN
        LET c == StrCat("func ", Sub(t, k, StrLen(t))) IN Fn(Sub(t, 6, k - 1), c, c, <<>>)
@@ -550,6 +558,12 @@ FuncCases == <<
      << <<"f", Fn("", "a=>a+1", "a=>a+1", <<>>)>> >>),
   SC("fn:lambda-block", "f=x=>{y=x+1; y*2}",
      << <<"f", Fn("", "x=>{y=x+1 y*2}", "x=>{y=x+1 y*2}", <<>>)>> >>),
+  SC("fn:lambda-2-block", "f=(a,b)=>{c=a+b; c*2}",
+     << <<"f", Fn("", "(a,b)=>{c=a+b c*2}", "(a,b)=>{c=a+b c*2}", <<>>)>> >>),
+  SC("fn:lambda-0-block", "f=()=>{x=1; x+1}",
+     << <<"f", Fn("", "()=>{x=1 x+1}", "()=>{x=1 x+1}", <<>>)>> >>),
+  SC("fn:lambda-3", "f=(a,b,c)=>[a,b,c]",
+     << <<"f", Fn("", "(a,b,c)=>[a,b,c]", "(a,b,c)=>[a,b,c]", <<>>)>> >>),
   SC("fn:variadic-named", "func f(a,..){len(..)+a}",
      << <<"f", Fn("f", "func (a,..){len(..)+a}", "func (a,..){len(..)+a}", <<>>)>> >>),
   SC("fn:variadic-lambda", "f=(..)=>len(..)",
@@ -595,7 +609,7 @@ FuncCases == <<
   SC("fn:str-escapes", "func f(a){\"x\\ty\\\"z\\\\\\n\"+a}",
      << <<"f", Fn("f", "func (a){\"x\\ty\\\"z\\\\\\n\"+a}", "func (a){\"x\\ty\\\"z\\\\\\n\"+a}", <<>>)>> >>),
   SC("fn:str-bell", "func f(a){\"bell\\x07\"+a}",
-     << <<"f", Fn("f", "func (a){\"bell\\x07\"+a}", "func (a){\"bell\\a\"+a}", <<>>)>> >>),
+     << <<"f", Fn("f", "func (a){\"bell\\a\"+a}", "func (a){\"bell\\a\"+a}", <<>>)>> >>),
   SC("fn:str-raw", "func f(a){`raw\nstr \"q\"`+a}",
      << <<"f", Fn("f", "func (a){\"raw\\nstr \\\"q\\\"\"+a}", "func (a){\"raw\\nstr \\\"q\\\"\"+a}", <<>>)>> >>),
   SC("fn:comments", "func f(a){ // line comment\n /* block */ a+1}",
@@ -629,7 +643,7 @@ FuncCases == <<
   SC("fn:lossy-eq-eq", "func f(a,b){a==(b==true)}",
      << <<"f", Fn("f", "func (a,b){a==(b==true)}", "func (a,b){a==b==true}", <<>>)>> >>),
   SC("fn:lossy-incr", "func f(a){b=a; b++; ++b; b}",
-     << <<"f", Fn("f", "func (a){b=a b++;++b;b}", "func (a){b=a b++++bb}", <<>>)>> >>),
+     << <<"f", Fn("f", "func (a){b=a b++; ++b b}", "func (a){b=a b++++bb}", <<>>)>> >>),
   SC("fn:parens-kept", "func f(a,b,c){(a+b)*c-(a*b)%7}",
      << <<"f", Fn("f", "func (a,b,c){(a+b)*c-a*b%7}", "func (a,b,c){(a+b)*c-a*b%7}", <<>>)>> >>),
   SC("fn:parens-logic", "func f(a,b){!(a&&b)||a}",
